@@ -207,7 +207,8 @@ def slot_stability(P, R):
     for f in P.fns.values():
         for s in f.calls():
             c = s.ev.get('callee') or ''
-            if c.startswith('iauth_xquery_services_') and c.split('iauth_xquery_services_')[1] in ('wipe', 'clear', 'init') and f.name != 'module_destructor':
+            if c.startswith('iauth_xquery_services_') and c.split('iauth_xquery_services_')[1] in ('wipe', 'clear', 'init') and f.name != 'module_destructor' \
+                    and not f.name.startswith('iauth_xquery_services_'):      # one generated helper built from another: judged at ITS callers
                 R.ob('C07.WMC.3', False, s, 'the service table is reset by %s outside the destructor' % c, key='table-reset')
             if c == 'iauth_xquery_services_append':
                 n += 1
